@@ -19,6 +19,7 @@ func init() {
 		Assumptions: []string{"fmutils.NestedMask.Filter keeps exactly the masked fields, Prune clears exactly the masked fields, proto.Merge copies set fields of src into dst, protoreflect Range stops when the callback returns false"},
 		Run:         runC05,
 		Controls: []Control{
+			{Name: "prune-empty-descends-into-maps", File: "pkg/masks/update.go", Old: "\t\tif d.Kind() == protoreflect.MessageKind && d.Cardinality() != protoreflect.Repeated {\n\t\t\tpruneEmpty(", New: "\t\tif d.Kind() == protoreflect.MessageKind && !d.IsList() {\n\t\t\tpruneEmpty(", Expect: "R05.13"},
 			{Name: "more-writable-replaces", File: "pkg/resource/opt.go", Old: "\t\trequest.moreWritableFields = fieldmaskpb.Union(request.moreWritableFields, writableFields)\n", New: "\t\trequest.moreWritableFields = writableFields\n", Expect: "R05.11"},
 			{Name: "absent-part-filtered-not-pruned", File: "pkg/masks/update.go", Old: "\t\t\t\tfieldMask.Prune(dstPr.Get(d).Message().Interface())\n", New: "\t\t\t\tfieldMask.Filter(dstPr.Get(d).Message().Interface())\n", Expect: "R05.5"},
 			{Name: "intersect-keeps-the-empty-side", File: "pkg/masks/update.go", Old: "\t\tcase len(am) == 0:\n\t\t\tres[name] = bm\n", New: "\t\tcase len(am) == 0:\n\t\t\tres[name] = am\n", Expect: "R05.9"},
@@ -63,6 +64,8 @@ func runC05(c *an.Ctx) {
 	c.Min("R05.4", 10)
 	r058(c, "R05.8")
 	c.Min("R05.8", 3)
+	r0513(c, "R05.13")
+	c.Min("R05.13", 2)
 	r068(c, "R05.12") // an empty writable / update mask is not "no mask" (shared with R06.8)
 	c.Min("R05.12", 3)
 	r059intersect(c, "R05.9")
@@ -1032,4 +1035,57 @@ func r0511(c *an.Ctx, rule string) {
 		}
 	}
 	c.Count("accumulating_option_stores", n)
+}
+
+// r0513: the mask walkers of the write side never ask a map (or list) field for "its message". A field of message
+// KIND can be a singular message, a list of messages or a map with message values; protoreflect panics when
+// Value.Message() is called on the latter two ("cannot convert map to message"). Every descent
+// dstPr.Get(d).Message() in pkg/masks/update.go lies behind a test that rules both out: Cardinality() != Repeated,
+// or IsList together with IsMap. (`!d.IsList()` alone lets maps through: a masked write naming a populated map
+// field panics.)
+func r0513(c *an.Ctx, rule string) {
+	n := 0
+	for _, fn := range c.Prog.FuncsIn("pkg/masks") {
+		if c.Prog.IsGenerated(fn.Pos()) || !strings.HasSuffix(c.Prog.RelFile(fn.Pos()), "update.go") {
+			continue
+		}
+		ord := 0
+		an.Instrs(fn, func(in ssa.Instruction) {
+			call, ok := in.(*ssa.Call)
+			if !ok || !strings.HasSuffix(an.CalleeName(call), "protoreflect.Value).Message") {
+				return
+			}
+			ord++
+			n++
+			card, isList, isMap := false, false, false
+			for _, e := range an.GuardingEdges(call) {
+				for _, s := range an.Sources(e.If.Cond) {
+					walk := []ssa.Value{s}
+					if bo, isBo := s.(*ssa.BinOp); isBo {
+						walk = append(walk, an.Sources(bo.X)...)
+						walk = append(walk, an.Sources(bo.Y)...)
+					}
+					if u, isU := s.(*ssa.UnOp); isU {
+						walk = append(walk, an.Sources(u.X)...)
+					}
+					for _, v := range walk {
+						if cl, isCall := v.(*ssa.Call); isCall && cl.Call.IsInvoke() {
+							switch cl.Call.Method.Name() {
+							case "Cardinality":
+								card = true
+							case "IsList":
+								isList = true
+							case "IsMap":
+								isMap = true
+							}
+						}
+					}
+				}
+			}
+			c.SawFunc(an.FuncName(fn))
+			c.Check(card || (isList && isMap), rule, fmt.Sprintf("%s|descent #%d into a field's message rules out lists and maps", an.FuncName(fn), ord), call.Pos(), "guarded by Cardinality() != Repeated (or IsList and IsMap)",
+				"Value.Message() is reached for a field that may be a map (or list) of messages: a masked write that names such a field, populated on both sides, panics (cannot convert map to message)")
+		})
+	}
+	c.Count("message_descents_on_the_write_side", n)
 }
